@@ -101,6 +101,32 @@ pub fn c01_product_spec(tier: &str) -> Spec {
     }
 }
 
+/// Library of pre-states (histories that leave the engine in a shape some code path treats
+/// specially). Every shape was added because a check or a seeded change needed it; the
+/// thorough tiers of the restart and crash checks start from all of them.
+pub fn prestates() -> Vec<(&'static str, Vec<Op>)> {
+    let s = sizes();
+    let h = s.bs - s.fill;
+    let a = s.fill - h;
+    let ap = |t: u8, len: usize| Op::Append { t, len };
+    let rn = |t: u8| Op::ReadNext { t, ckpt: true };
+    vec![
+        ("tail2", vec![ap(0, 1), ap(0, 1)]),
+        ("sealed+tail", vec![ap(0, s.half), ap(0, s.half), ap(0, 128), ap(0, 1)]),
+        ("one-per-block", vec![ap(0, s.fill), ap(0, s.fill), ap(0, s.fill)]),
+        ("two-per-block", vec![ap(0, s.half), ap(0, s.half), ap(0, s.half), ap(0, s.half), ap(0, s.half)]),
+        ("zero-length-in-last-slot", vec![ap(0, a), ap(0, 0)]),
+        ("two-unit-block-filled", vec![ap(0, s.over), ap(0, s.fill - 1)]),
+        ("file-full", vec![ap(0, s.over), ap(1, s.half)]),
+        ("hole-before-last-unit", vec![ap(0, 1), ap(1, s.half), ap(2, s.max_alloc)]),
+        ("two-unit-block-at-file-end", vec![ap(0, 1), ap(1, s.half), ap(0, s.over)]),
+        ("tail-progress-then-sealed", vec![ap(0, 1), ap(0, 1), rn(0), ap(0, s.half), ap(0, s.half), ap(0, 1)]),
+        ("consumed-into-second-block", vec![ap(0, s.half), ap(0, s.half), ap(0, 128), Op::BatchRead { t: 0, budget: usize::MAX, ckpt: true, start: None }]),
+        ("two-topics-interleaved", vec![ap(0, 1), ap(1, s.half), ap(0, 129), rn(0)]),
+        ("batch-across-blocks", vec![Op::Batch { t: 0, lens: vec![s.half, s.half, 127] }]),
+    ]
+}
+
 /// C06, second family: layouts that end exactly at (or one byte around) a block boundary -
 /// a zero-length entry in the last header-sized slot, entries filling a one-unit or a two-unit
 /// block to the byte - followed by every sequence of up to 2 (thorough 3) reads, appends,
@@ -125,6 +151,10 @@ pub fn c06_boundary_spec(tier: &str) -> Spec {
         vec![Op::Batch { t: 0, lens: vec![a, 0] }],
         vec![Op::Batch { t: 0, lens: vec![a, 0, 0] }],
     ];
+    let mut roots = roots;
+    if thorough {
+        roots.extend(prestates().into_iter().map(|p| p.1));
+    }
     let max_restarts = if thorough { 3 } else { 2 };
     Spec {
         prop: "C06",
@@ -212,6 +242,14 @@ pub fn spec_for(prop: &str, tier: &str) -> Option<Spec> {
                         Op::Append { t: 1, len: half },
                         Op::Append { t: 0, len: 129 },
                         Op::ReadNext { t: 0, ckpt: true },
+                    ],
+                    // one sealed block + tail, everything consumed: the consumer's tail progress
+                    // sits in the second block, which the next rotation (the topic's second) seals
+                    vec![
+                        Op::Append { t: 0, len: half },
+                        Op::Append { t: 0, len: half },
+                        Op::Append { t: 0, len: 128 },
+                        Op::BatchRead { t: 0, budget: usize::MAX, ckpt: true, start: None },
                     ],
                 ],
                 alphabet: Box::new(move |_m: &Model, _h: &[Op]| {
@@ -612,6 +650,27 @@ pub fn spec_for(prop: &str, tier: &str) -> Option<Spec> {
                         af(0),
                         Op::Drain { t: 1 },
                     ],
+                    // file 1 entirely consumed, consumer in the writer's tail in file 2
+                    vec![af(0), af(0), af(0), af(0), af(0), Op::Drain { t: 0 }],
+                    // three files; file 1 consumed, the consumer inside file 2's sealed blocks
+                    vec![
+                        af(0),
+                        af(0),
+                        af(0),
+                        af(0),
+                        af(0),
+                        af(0),
+                        af(0),
+                        af(0),
+                        af(0),
+                        af(0),
+                        Op::ReadNext { t: 0, ckpt: true },
+                        Op::ReadNext { t: 0, ckpt: true },
+                        Op::ReadNext { t: 0, ckpt: true },
+                        Op::ReadNext { t: 0, ckpt: true },
+                        Op::ReadNext { t: 0, ckpt: true },
+                        Op::ReadNext { t: 0, ckpt: true },
+                    ],
                     // cursor parked at the end of a sealed block, polled without progress
                     vec![
                         af(0),
@@ -645,11 +704,11 @@ pub fn spec_for(prop: &str, tier: &str) -> Option<Spec> {
                     v
                 }),
                 max_depth: if thorough { 6 } else { 4 },
-                owned: vec!["read.order", "read.empty", "read.err", "read.panic", "reopen.err", "reopen.panic", "crash"],
+                owned: vec!["reclaim.unconsumed", "read.order", "read.empty", "read.err", "read.panic", "reopen.err", "reopen.panic", "crash"],
                 dedup: true,
                 time_cap_s: if thorough { 1100.0 } else { 55.0 },
                 extra: None,
-                digest_each: false,
+                digest_each: true,
                 want_listing: false,
                 isolate: true,
                 owns_if: Some(Box::new(|_pre: &Model, ops: &[Op]| ops.iter().any(|o| matches!(o, Op::ReclaimTick)))),
@@ -682,6 +741,9 @@ pub fn spec_for(prop: &str, tier: &str) -> Option<Spec> {
                     vec![o(0, 0, 0), o(1, 1, 0), u(0), af(0), af(0), af(0), af(0), af(0), u(1), af(0), af(0), af(0), af(0), af(0)],
                     // three instances, the third with a key that needs sanitising
                     vec![o(0, 0, 0), o(1, 1, 0), o(2, 2, 0), u(0), af(0), u(2), af(0)],
+                    // two keys without a single usable character, of equal length ("##", "@@"):
+                    // their directory names come from a hash of the key
+                    vec![o(0, 3, 0), o(1, 4, 0), u(0), af(0)],
                 ],
                 alphabet: Box::new(move |m: &Model, _h: &[Op]| {
                     let mut v = vec![];
